@@ -441,6 +441,18 @@ fn used_type_params<'ty, 'out>(
                 }
             }
         }
+        // A projection out of something which uses a type parameter, e.g. the
+        // `<T as TS>::OptionInnerType` of a non-nullable optional field.
+        Type::Path(TypePath {
+            qself: Some(qself), ..
+        }) => {
+            let mut inner = HashSet::new();
+            used_type_params(&mut inner, &qself.ty, is_type_param);
+            if !inner.is_empty() {
+                out.insert(ty);
+                out.extend(inner);
+            }
+        }
         _ => (),
     }
 }
